@@ -22,6 +22,7 @@ import (
 	"math"
 	"sort"
 	"strings"
+	"unsafe"
 
 	"github.com/cloudwego/gopkg/internal/hash/maphash"
 	"github.com/cloudwego/gopkg/internal/strstore"
@@ -98,7 +99,9 @@ func (m *StrMap[V]) LoadFromSlice(kk []string, vv []V) error {
 	for _, k := range kk {
 		sz += len(k)
 	}
-	if cap(m.data) < sz {
+	if cap(m.data) < sz || viewsOf(m.data, kk) {
+		// a key may be a view of the old key buffer (e.g. returned by Item):
+		// the buffer must not be overwritten while such keys are still to be copied
 		m.data = make([]byte, 0, sz)
 	}
 	if cap(m.items) < len(vv) {
@@ -122,6 +125,27 @@ func (m *StrMap[V]) LoadFromSlice(kk []string, vv []V) error {
 	}
 	m.makeHashtable()
 	return nil
+}
+
+// viewsOf reports whether any of ss shares memory with the backing array of buf.
+func viewsOf(buf []byte, ss []string) bool {
+	if cap(buf) == 0 {
+		return false
+	}
+	buf = buf[:cap(buf)]
+	lo := uintptr(unsafe.Pointer(&buf[0]))
+	hi := lo + uintptr(len(buf))
+	for _, s := range ss {
+		if len(s) == 0 {
+			continue
+		}
+		b := unsafex.StringToBinary(s)
+		p := uintptr(unsafe.Pointer(&b[0]))
+		if p < hi && p+uintptr(len(b)) > lo {
+			return true
+		}
+	}
+	return false
 }
 
 // Len returns the size of map
